@@ -1,6 +1,6 @@
 (* Glue for the correspondence of the generic tree model with the implementation. The harness dumps
    real model objects as `node` terms (ids = Python object identities renumbered, toks = `.tokens`). *)
-From AB Require Import Desc Generated Tree.
+From AB Require Import Desc Generated Tree TreeDefs TreeWF.
 From Coq Require Import ZArith.
 Open Scope list_scope.
 
@@ -76,4 +76,18 @@ Definition check_case (c : tcase) : bool :=
   | TReattach a new after =>
     let mine := reattach all_classes new a in
     node_same mine after && list_eqb Z.eqb (sids mine) (sids after)
+  end.
+
+(* The C05 statement (TreeWF.WF, via its sound checker wf_b) evaluated on a dumped implementation
+   state. `store` = Some (all tokens of the node's token store, in order) asks in addition that the
+   node is self-contained: its tokens are the whole store up to invisible tokens around them
+   (treewalk.wf_problems(expect_whole_store=True)); None = only WF of the node within its own span. *)
+Inductive wcase :=
+| TWf (a : node) (store : option (list tk)).
+
+Definition check_wcase (c : wcase) : bool :=
+  match c with
+  | TWf a store =>
+    conforms all_classes a && wf_b all_classes a
+    && match store with None => true | Some st => whole_store_b a st end
   end.
